@@ -123,7 +123,7 @@ Proof. exact reference_wire_decodes. Qed.
 
 (* The hypotheses are satisfiable: the mini backend of the correspondence check is an instance. *)
 Theorem C04_backend_ok_inhabited :
-  backend_ok mutf8_ok (list (list N * mval)) mcmd mdecode mexec mfast_get mfast_set mbatch_get mbatch_set
+  backend_ok mutf8_ok mstate mcmd mdecode mexec mfast_get mfast_set mbatch_get mbatch_set
              mkind CGet CSet.
 Proof. exact mini_backend_ok. Qed.
 
